@@ -1156,3 +1156,32 @@ impl Decompressor {
         self.archive.close()
     }
 }
+
+/// Verification hook (compiled only with `--cfg ragc_verif`): the complete hidden state of a reader
+/// handle in canonical form — metadata cursor, contigs loaded per sample, sequential stream cursors,
+/// and the reference cache (sorted group ids with a hash of the cached bytes). Read-only.
+#[cfg(ragc_verif)]
+impl Decompressor {
+    pub fn verif_state(&self) -> String {
+        let (cursor, loaded) = self.collection.verif_state();
+        let mut cache: Vec<(u32, u64, usize)> = self
+            .segment_cache
+            .iter()
+            .map(|(g, d)| {
+                let mut h = 0xcbf29ce484222325u64;
+                for &b in d {
+                    h = (h ^ b as u64).wrapping_mul(0x100000001b3);
+                }
+                (*g, h, d.len())
+            })
+            .collect();
+        cache.sort();
+        format!(
+            "cursor={} loaded={:?} streams={:?} cache={:?}",
+            cursor,
+            loaded,
+            self.archive.verif_state(),
+            cache
+        )
+    }
+}
